@@ -408,6 +408,44 @@ def _run(tier, seed, t0, on_accept=None):
             if sz[k] >= 1:
                 try_rule('verit_th_resolution', (tuple(res), tuple(sz)), prevs, 'resolution')
 
+    # ---- resolution with a clause REPEATED among the premises (not adjacent): veriT lists a premise once per use, and
+    # the evaluation works on converted copies of the premise clauses - the copies of one clause must stay independent
+    rng.seed('%s/resolution-repeat' % seed)
+    n_rep = 150 if tier == 'quick' else 2500
+    for it in range(n_rep):
+        base = []
+        for i in range(rng.choice([2, 2, 3])):
+            cl = []
+            for _ in range(rng.choice([1, 2, 2, 3])):
+                l = lit()
+                if l not in cl and Not(l) not in cl and not (l.is_not() and l.arg in cl):
+                    cl.append(l)
+            base.append(cl)
+        for i in range(len(base) - 1):
+            l = rng.choice(base[i])
+            nl = l.arg if l.is_not() else Not(l)
+            if nl not in base[i + 1]:
+                base[i + 1] = [t for t in base[i + 1] if t != l] + [nl]
+        if len(base) == 2:
+            order = rng.choice([[0, 1, 0], [1, 0, 1], [0, 1, 0, 1]])
+        else:
+            order = rng.choice([[0, 1, 2, 0], [0, 1, 0, 2], [1, 0, 2, 1], [2, 1, 0, 2], [0, 1, 2, 1, 0]])
+        cls = [list(base[k]) for k in order]
+        universe = []
+        for cl in base:
+            for t in cl:
+                if t not in universe:
+                    universe.append(t)
+        cands = [[]] + [[x] for x in universe] + [[x, y] for x in universe for y in universe if x != y]
+        res = resolvent(cls)
+        if res is not None:
+            cands.append(res)
+            cands.extend(res[:k] + res[k + 1:] for k in range(len(res)))
+        rng.shuffle(cands)
+        prevs = [Thm(Or(*cl), H) for cl in cls]
+        for concl in cands[:14]:
+            try_rule('verit_th_resolution', (tuple(concl), tuple(len(cl) for cl in cls)), prevs, 'resolution')
+
     # ------------------------------------------------------------ equality chains
     rng.seed('%s/equality' % seed)      # every family has its own stream: adding inputs to one does not shift the others
     terms = [a, b, c, d, f(a), f(b)]
